@@ -22,14 +22,15 @@ Inductive lobs :=
   | LO (id url : N) (file : option bytes) (count sum : N) (name : bytes) (enabled rewritten : bool).
 
 (** One refresh: which arrays, forced?, the lists that are due, what each
-    list's source delivers.  One call of set_url: array, URL of the request,
+    list's source delivers; observed: the reported number of updated lists
+    and the network error flag.  One call of set_url: array, URL of the request,
     new name, new URL, new enabled flag, what the (new) source delivers if it
     is asked; observed: restart flag and error.  One engine rebuild (any other
     settings change).  Observed after each step: the lists and the verdicts of
     the probe names. *)
 Inductive rstep :=
   | RStep (block allow force : bool) (due : list N) (ocs : list (N * outcome))
-          (obs_lists : list lobs) (obs_verdicts : list N)
+          (obs_updated : N) (obs_net_err : bool) (obs_lists : list lobs) (obs_verdicts : list N)
   | RSet (allow : bool) (url : N) (name : bytes) (nurl : N) (enabled : bool) (o : outcome)
          (obs_restart obs_err : bool) (obs_lists : list lobs) (obs_verdicts : list N)
   | RRebuild (obs_lists : list lobs) (obs_verdicts : list N).
@@ -52,8 +53,12 @@ Definition oc_of (ocs : list (N * outcome)) (i : N) : outcome :=
 (** The model's step and whether the reported flags agree. *)
 Definition run_step (s : rstep) (st : rstate) : bool * rstate :=
   match s with
-  | RStep b a f due ocs _ _ =>
-      (true, refresh crc32_update b a f (fun i => existsb (N.eqb i) due) (oc_of ocs) st)
+  | RStep b a f due ocs n ne _ _ =>
+      let due' := fun i => existsb (N.eqb i) due in
+      (* the reported number of updates (0 with a network error) and the network error flag *)
+      (Bool.eqb ne (pass_net_error crc32_update b a f due' (oc_of ocs) st) &&
+       (n =? if ne then 0 else pass_updated crc32_update b a f due' (oc_of ocs) st),
+       refresh crc32_update b a f due' (oc_of ocs) st)
   | RSet a u name nu en o rs er _ _ =>
       let '(rs', er', st') := set_props crc32_update a u name nu en o st in
       (* the restart flag is only looked at when there is no error *)
@@ -78,7 +83,7 @@ Definition list_agrees (st0 st : rstate) (o : lobs) : bool :=
 
 Definition step_obs (s : rstep) : list lobs * list N :=
   match s with
-  | RStep _ _ _ _ _ ol ov => (ol, ov) | RSet _ _ _ _ _ _ _ _ ol ov => (ol, ov) | RRebuild ol ov => (ol, ov)
+  | RStep _ _ _ _ _ _ _ ol ov => (ol, ov) | RSet _ _ _ _ _ _ _ _ ol ov => (ol, ov) | RRebuild ol ov => (ol, ov)
   end.
 
 Definition step_agrees (probes : list bytes) (s : rstep) (st0 st : rstate) : bool :=
